@@ -155,7 +155,11 @@ class _BaseLayout(MaildirLayout[_MaildirT], metaclass=ABCMeta):
     def _split(cls, name: str, delimiter: str) -> _Parts:
         if name == 'INBOX':
             return []
-        return name.split(delimiter)
+        parts = name.split(delimiter)
+        for part in parts:
+            if part in ('', '.', '..') or '\0' in part or os.sep in part:
+                raise ValueError(name)
+        return parts
 
     @classmethod
     def _join(cls, parts: _Parts, delimiter: str) -> str:
